@@ -61,15 +61,46 @@ def provenance(check: Check, repo) -> None:
                 kws = {k.arg: k.value for k in n.keywords}
                 ok = "pos" not in kws and len(n.args) <= 1
                 check.oblige("FAIL-SITE", f"{rel}::{ast.unparse(n)[:40]}", "fail() called without an explicit pos" if ok else "fail() called with an explicit pos", ok)
-                if "rule_name" in kws:
-                    v = kws["rule_name"]
-                    okn = isinstance(v, ast.Name) or (isinstance(v, ast.Constant) and v.value in (None, ""))
-                    check.oblige("FAIL-SITE", f"{rel}::{ast.unparse(n)[:40]}", "rule_name is a rule-name variable or None" if okn else "rule_name is not a rule name", okn)
             if isinstance(n, ast.Constant) and isinstance(n.value, str) and "state.fail(" in n.value:
                 n_sites += 1
                 ok = "pos=" not in n.value
                 check.oblige("FAIL-SITE", f"{rel}::template", "template calls fail() without an explicit pos" if ok else "a template passes an explicit pos to fail()", ok)
     check.count("fail_call_sites", n_sites)
+
+
+def fail_names(check: Check, repo, tier: str) -> bool:
+    """FAIL-NAMES: which rule a failure is recorded under, on the program model (sa/gensem.py): a rule with a
+    predicate over every kind of operand, interpreted and generated; every name in the furthest-failure record is a
+    rule of the table and both siblings record the same."""
+    from .. import ops
+    from ..gensem import check_gen
+
+    con = "src/pest/grammar/expressions/prefix.py::NegativePredicate.parse/generate"
+    n, bad = check_gen(repo, "C13 FAIL-NAMES", ops.modifier_masks(repo), tier == "thorough", select=lambda desc, spec: desc.startswith("predicate"))
+    check.count("fail_name_scenarios", n)
+    mine = [(cat, d) for cat, d in bad if "records a failure under a name" in cat or "record a different furthest failure" in cat or "raises" in cat]
+    check.oblige("FAIL-NAMES", con, f"on {n} model tables with predicates every failure is recorded under a rule of the grammar, the same in both siblings", True, sample=True)
+    seen: set = set()
+    for cat, d in mine:
+        if cat not in seen:
+            seen.add(cat)
+            check.oblige("FAIL-NAMES", con, cat, False, sample=True, finding=Finding("FAIL-NAMES", con, cat, f"{cat}: e.g. {d}; the message then lists a name the grammar does not define, or differs between the modes", {"witness": d}))
+    return not mine
+
+
+def rule_name_sources(check: Check, repo) -> None:
+    """Second opinion behind FAIL-NAMES: where explicit rule_name values come from, read from the call sites."""
+    for rel in repo.py_files:
+        m = repo.mod(rel)
+        for n in ast.walk(m.tree):
+            if isinstance(n, ast.Call) and isinstance(n.func, ast.Attribute) and n.func.attr == "fail" and ast.unparse(n.func.value) in ("state", "self"):
+                if rel == STATE_REL and ast.unparse(n.func.value) == "self":
+                    continue
+                kws = {k.arg: k.value for k in n.keywords}
+                if "rule_name" in kws:
+                    v = kws["rule_name"]
+                    okn = isinstance(v, ast.Name) or (isinstance(v, ast.Constant) and v.value in (None, ""))
+                    check.oblige("FAIL-SITE", f"{rel}::{ast.unparse(n)[:40]}", "rule_name is a rule-name variable or None" if okn else "rule_name is not a rule name", okn)
     # rule_name variables in NegativePredicate come from Identifier.value / Rule.name / None
     np = repo.func("src/pest/grammar/expressions/prefix.py", "NegativePredicate.parse")
     vals = {ast.unparse(a.value) for a in ast.walk(np) if isinstance(a, ast.Assign) and ast.unparse(a.targets[0]) == "failed_rule_name"}
@@ -114,14 +145,17 @@ def rule_name_pairing(check: Check, repo) -> None:
 
 def run(tier: str) -> Check:
     check = Check("C13", tier, EXPLANATION)
-    check.rules = ["CONTEXT", "RENDER", "FURTHEST", "FAIL", "FAIL-SITE", "FAILLABEL", "FAILPOS", "FRAMES", "NEG", "SUPPRESS", "FAIL-PARITY", "ESCAPE-RENDER", "LINE-OFFSET", "CASE"]
+    check.rules = ["CONTEXT", "RENDER", "FURTHEST", "FAIL", "FAIL-NAMES", "FAIL-SITE", "FAILLABEL", "FAILPOS", "FRAMES", "NEG", "SUPPRESS", "FAIL-PARITY", "ESCAPE-RENDER", "LINE-OFFSET", "CASE"]
     check.assumptions = [
         "that the line/column/source line shown are those of p: only the partition premise (LINE-OFFSET) of error_context is decided, not its arithmetic",
         "start_pos <= p relies on C16's position-write discipline and on callers passing 0 <= start_pos <= len(text)",
     ]
     repo, _ = fill(check, tier, floors={"parse_paths": 120, "skeleton_paths": 120})
     provenance(check, repo)
-    rule_name_pairing(check, repo)
+    names_ok = fail_names(check, repo, tier)
+    check.second_opinion(lambda c: rule_name_sources(c, repo), "FAIL-NAMES", names_ok)
+    check.second_opinion(lambda c: rule_name_pairing(c, repo), "FAIL-NAMES", names_ok)
+    check.floor("fail_name_scenarios", 30)
     from ..failsem import check_fail
 
     construct = f"{STATE_REL}::ParserState.fail"
